@@ -53,6 +53,7 @@ def dispatch (line : String) : String :=
   | "c09L" :: _ => "skip"
   | "c10" :: args => C10.handle args
   | "c10d" :: args => C10.handleD args
+  | "c10e" :: args => C10.handleE args
   | "c06" :: args => C06.handle args
   | "c03chain" :: args => C03.handleChain args
   | "c03cls" :: args => C03.handleCls args
